@@ -80,3 +80,45 @@ Proof. split; [cbn; lia | reflexivity]. Qed.
 Example C16_example_double_negation :
   invert (And (Tag 0) (Not (Not (Tag 1)))) = And (Not (Tag 0)) (Tag 1).
 Proof. reflexivity. Qed.
+
+(* which files a run touches, and its exit status (cmd/cff/main.go run; FileSelModel): an
+   output is written exactly for the selected files that compile and contain a directive, at
+   their target; a file that --file does not name by its exact base name is never written
+   for; nothing is written for a rejected file; the exit status is non-zero exactly when a
+   selected file failed or the selection repeats an input; without --file no two files of
+   different (directory, name) share an output. *)
+From CffVerif Require Import FileSelModel FileSelProofs.
+
+Theorem C16_written_exactly :
+  forall s files o f, In (o, f) (written (run_files s files)) <->
+    In f files /\ target s f = Some o /\ sf_fail f = false /\ sf_emits f = true.
+Proof. exact written_spec. Qed.
+Print Assumptions C16_written_exactly.
+
+Theorem C16_unselected_untouched :
+  forall s files f, selected s f = false -> forall o, ~ In (o, f) (written (run_files s files)).
+Proof. exact unselected_untouched. Qed.
+Print Assumptions C16_unselected_untouched.
+
+Theorem C16_selected_by_exact_name :
+  forall s f, selected s f = true <-> (s = [] \/ exists o, In (sf_base f, o) s).
+Proof. exact selected_spec. Qed.
+Print Assumptions C16_selected_by_exact_name.
+
+Theorem C16_exit_status :
+  forall s files, exit_nonzero (run_tool s files) = true <->
+    (dup_input s = true \/ exists f, In f files /\ selected s f = true /\ sf_fail f = true).
+Proof. exact exit_spec. Qed.
+Print Assumptions C16_exit_status.
+
+Theorem C16_rejected_not_written :
+  forall s files f, sf_fail f = true -> forall o, ~ In (o, f) (written (run_files s files)).
+Proof. exact rejected_not_written. Qed.
+Print Assumptions C16_rejected_not_written.
+
+Theorem C16_default_outputs_distinct :
+  forall files, NoDup (map (fun f => (sf_dir f, sf_base f)) files) ->
+    (forall f, In f files -> has_suffix (sf_base f) s_go = true) ->
+    NoDup (map fst (written (run_files [] files))).
+Proof. exact default_outputs_distinct. Qed.
+Print Assumptions C16_default_outputs_distinct.
